@@ -55,8 +55,11 @@ INVALID = ["y + z", "y * z", "y / z", "y:z", "(y|g)", "(1|g)", "offset(y)", "1",
 
 def units(tier, seed):
     u = []
-    for n in NS:
-        for rhs in RHS:
+    rhss = list(RHS)
+    if tier == "thorough":
+        rhss += ["f*g*x", "0 + f:x + (f|g)", "bs(x, df=4) + (1|g)", "C(f, Sum):x", "(0 + x|g) + (0 + z|g)", "x + z + x:z", "S(f) + T(g, 'g2')", "I(x ** 2) + {z / x}"]
+    for n in (NS if tier == "quick" else [7, 10, 13, 16, 25]):
+        for rhs in rhss:
             u.append([{"n": n, "rhs": rhs}])
     u.append([{"invalid": True}])
     return u
